@@ -4,6 +4,14 @@ import BqVerif.Proofs.GraphConn
 General entry-level theorems for the Kronecker/builder model `Model/Kron.lean`:
 mixed-radix `digits`/`undigits`, `embed` for an arbitrary gate and location, `dagger`, `npow`, `ipower`.
 
+* (1) `digits_length`, `digits_getD`, `digits_lt`, `undigits_digits(_mod)`, `digits_undigits`, `undigits_lt`
+* (2) `embed_at` (main theorem: `apply_*` = explicit computation on the digit string), `embed_at_digits`,
+  `embed_identity`, `embed_full`, `embed_mul`, `embed_unitary`, `embed_dagger`
+  (`embed_length` is in `KronOps`)
+* (3) `dagger_at`, `mul_dagger_left/right`, `mul_assoc`, `mul_identity_left/right`, `npow_add`,
+  `ipower_nonneg/neg/add/neg_inverse`, unitarity of `identity`, `mul`, `dagger`, `npow`, `ipower`, `embed`
+* `wf_iff_unitary`: the executable `Mono.wf` decides `Mono.Unitary`
+
 Core only, no Mathlib.
 -/
 namespace BqVerif.Kron
@@ -920,5 +928,212 @@ theorem embed_unitary (m : Mono) (loc radixes : List Nat) (hm : m.Unitary) (hloc
     have := congrArg (undigits radixes) e1
     rw [undigits_digits radixes c hc, undigits_digits radixes c' hc'] at this
     exact this.symm
+
+/-! ### the executable check `Mono.wf` decides `Mono.Unitary` -/
+theorem length_eraseDups_le : ∀ (n : Nat) (l : List Nat), l.length ≤ n → l.eraseDups.length ≤ l.length
+  | 0, l, h => by
+    cases l with
+    | nil => simp
+    | cons a as => simp at h
+  | n + 1, l, h => by
+    cases l with
+    | nil => simp
+    | cons a as =>
+      rw [List.eraseDups_cons, List.length_cons, List.length_cons]
+      have h1 : (as.filter fun b => !b == a).length ≤ as.length := List.length_filter_le _ _
+      have h2 := length_eraseDups_le n (as.filter fun b => !b == a) (by simp at h; omega)
+      omega
+
+theorem nodup_of_length_eraseDups : ∀ (n : Nat) (l : List Nat), l.length ≤ n →
+    l.eraseDups.length = l.length → l.Nodup
+  | 0, l, h, _ => by
+    cases l with
+    | nil => simp
+    | cons a as => simp at h
+  | n + 1, l, h, he => by
+    cases l with
+    | nil => simp
+    | cons a as =>
+      rw [List.eraseDups_cons, List.length_cons, List.length_cons] at he
+      have h1 : (as.filter fun b => !b == a).length ≤ as.length := List.length_filter_le _ _
+      have h2 := length_eraseDups_le _ (as.filter fun b => !b == a) (Nat.le_refl _)
+      have h3 : (as.filter fun b => !b == a).length = as.length := by omega
+      have h4 := List.length_filter_eq_length_iff.1 h3
+      have h5 : (as.filter fun b => !b == a) = as := List.filter_eq_self.2 h4
+      rw [h5] at he
+      rw [List.nodup_cons]
+      refine ⟨fun hmem => ?_, nodup_of_length_eraseDups n as (by simp at h; omega) (by omega)⟩
+      have := h4 a hmem
+      simp at this
+
+theorem length_eraseDups_eq_iff_nodup (l : List Nat) : l.eraseDups.length = l.length ↔ l.Nodup :=
+  ⟨nodup_of_length_eraseDups l.length l (Nat.le_refl _),
+   fun h => by rw [BqVerif.Graph.eraseDups_eq_self_of_nodup l h]⟩
+
+theorem wf_iff_unitary (m : Mono) : m.wf = true ↔ m.Unitary := by
+  unfold Mono.wf Mono.Unitary
+  rw [Bool.and_eq_true, List.all_eq_true, beq_iff_eq]
+  have h : (m.map (·.1)).eraseDups.length = m.length ↔ (m.map (·.1)).Nodup := by
+    have := length_eraseDups_eq_iff_nodup (m.map (·.1))
+    rwa [List.length_map] at this
+  rw [h]
+  constructor
+  · rintro ⟨h1, h2⟩
+    exact ⟨fun e he => by simpa using h1 e he, h2⟩
+  · rintro ⟨h1, h2⟩
+    exact ⟨fun e he => by simpa using h1 e he, h2⟩
+
+/-! ### inverses are unique; `embed` commutes with `dagger` -/
+/-- a left inverse of a monomial unitary is its `dagger` -/
+theorem eq_dagger_of_mul_eq_identity (x e : Mono) (hx : x.Unitary) (he : e.Unitary)
+    (hl : x.length = e.length) (h : mul x e = identity e.length) : x = dagger e := by
+  have h1 := mul_identity_right x (fun f hf => (hx.1 f hf).2)
+  have hde := dagger_unitary e he
+  rw [hl, ← mul_dagger_right e he,
+    ← mul_assoc x e (dagger e) (by intro f hf; have := hde.rows f hf; rwa [dagger_length] at this),
+    h, mul_identity_left (dagger e) e.length (hde.all _ (dagger_length e))] at h1
+  exact h1.symm
+
+theorem dagger_dagger (m : Mono) (hm : m.Unitary) : dagger (dagger m) = m := by
+  have := eq_dagger_of_mul_eq_identity m (dagger m) hm (dagger_unitary m hm) (dagger_length m).symm
+    (by rw [mul_dagger_right m hm, dagger_length])
+  exact this.symm
+
+/-- `apply_*(…, inverse=True)`: embedding the conjugate transpose is the conjugate transpose of the
+embedding -/
+theorem embed_dagger (m : Mono) (loc radixes : List Nat) (hm : m.Unitary) (hloc : loc.Nodup)
+    (hlt : ∀ q ∈ loc, q < radixes.length) (hml : m.length = dim (loc.map (radixes.getD · 1))) :
+    embed (dagger m) loc radixes = dagger (embed m loc radixes) := by
+  apply eq_dagger_of_mul_eq_identity
+  · exact embed_unitary _ loc radixes (dagger_unitary m hm) hloc hlt (by rw [dagger_length]; exact hml)
+  · exact embed_unitary m loc radixes hm hloc hlt hml
+  · rw [embed_length, embed_length]
+  · rw [← embed_mul (dagger m) m loc radixes hloc hlt hml hm.rows, mul_dagger_left m hm, hml,
+      embed_identity, embed_length]
+
+/-! ### non-vacuity, sanity checks, exactness of the guards -/
+section Examples
+/-- a controlled phase-ish monomial gate on two qubits -/
+private def g4 : Mono := [(0, 0), (1, 1), (3, 2), (2, 3)]
+/-- a gate on a qutrit and a qubit (radixes `[3, 2]`) -/
+private def g6 : Mono := [(1, 0), (0, 1), (3, 2), (2, 3), (5, 0), (4, 1)]
+
+example : g4.Unitary := (wf_iff_unitary g4).1 (by decide)
+example : g6.Unitary := (wf_iff_unitary g6).1 (by decide)
+example : ¬ Mono.Unitary [(0, 0), (0, 1)] := fun h => by
+  have := (wf_iff_unitary _).2 h; revert this; decide
+
+-- (1) digits
+example : digits [2, 3, 2] 11 = [1, 2, 1] := by decide
+example : undigits [2, 3, 2] [1, 2, 1] = 11 := by decide
+example : dim [2, 3, 2] = 12 := by decide
+example : (digits [2, 3, 2] 100).length = 3 := digits_length _ _
+example : ∀ i, i < 3 → (digits [2, 3, 2] 100).getD i 0 < [2, 3, 2].getD i 0 :=
+  digits_lt [2, 3, 2] 100 (by decide)
+/-- `digits_lt` needs a positive radix -/
+example : ¬ (digits [2, 0] 5).getD 1 0 < [2, 0].getD 1 0 := by decide
+example : undigits [2, 3, 2] (digits [2, 3, 2] 7) = 7 := undigits_digits _ _ (by decide)
+/-- `undigits_digits` needs `x < dim radixes` -/
+example : undigits [2, 3] (digits [2, 3] 7) ≠ 7 := by decide
+example : digits [2, 3, 2] (undigits [2, 3, 2] [1, 0, 1]) = [1, 0, 1] :=
+  digits_undigits _ _ rfl (by decide)
+/-- `digits_undigits` needs the digit bound and the length -/
+example : digits [2, 2] (undigits [2, 2] [0, 3]) ≠ [0, 3] := by decide
+example : digits [2, 2] (undigits [2, 2] [1, 1, 1]) ≠ [1, 1, 1] := by decide
+example : undigits [2, 3, 2] [1, 0, 1] < dim [2, 3, 2] := undigits_lt _ _ rfl (by decide)
+example : ¬ undigits [2, 2] [0, 5] < dim [2, 2] := by decide
+
+-- (2) embed
+example : embed g6 [1, 2] [2, 3, 2] =
+    [(1, 0), (0, 1), (3, 2), (2, 3), (5, 0), (4, 1), (7, 0), (6, 1), (9, 2), (8, 3), (11, 0), (10, 1)] := by
+  decide
+example : embed g6 [2, 0] [2, 2, 3] =
+    [(6, 0), (7, 2), (8, 0), (9, 0), (10, 2), (11, 0), (0, 1), (1, 3), (2, 1), (3, 1), (4, 3), (5, 1)] := by
+  decide
+example :
+    let subR := [2, 0].map ([2, 2, 3].getD · 1)
+    let ds := digits [2, 2, 3] 7
+    let sc := undigits subR ([2, 0].map (ds.getD · 0))
+    let e := g6.at sc
+    let out := (embed g6 [2, 0] [2, 2, 3]).at 7
+    sc < g6.length ∧ out.2 = e.2 ∧ out.1 < dim [2, 2, 3] ∧
+    (∀ k, k < [2, 0].length →
+      (digits [2, 2, 3] out.1).getD ([2, 0].getD k 0) 0 = (digits subR e.1).getD k 0) ∧
+    (∀ q, q < [2, 2, 3].length → q ∉ [2, 0] → (digits [2, 2, 3] out.1).getD q 0 = ds.getD q 0) ∧
+    undigits subR ([2, 0].map ((digits [2, 2, 3] out.1).getD · 0)) = e.1 :=
+  embed_at g6 [2, 0] [2, 2, 3] (by decide) (by decide) (by decide) (by decide) 7 (by decide)
+/-- `embed_at` needs a duplicate-free location: the write-back clause fails for `loc = [0, 0]` -/
+example : ¬ ((digits [2] ((embed [(1, 0), (2, 0), (3, 0), (0, 0)] [0, 0] [2]).at 0).1).getD 0 0 =
+    (digits [2, 2] (Mono.at [(1, 0), (2, 0), (3, 0), (0, 0)] 0).1).getD 0 0) := by decide
+/-- `embed_at` needs `col < dim radixes`: outside, `at` is the default `(0, 0)` -/
+example : ((embed g4 [0, 1] [2, 2]).at 5).2 ≠
+    (g4.at (undigits [2, 2] ([0, 1].map ((digits [2, 2] 5).getD · 0)))).2 := by decide
+example : embed (identity (dim ([2, 0].map ([2, 2, 3].getD · 1)))) [2, 0] [2, 2, 3] = identity 12 :=
+  embed_identity [2, 0] [2, 2, 3]
+example : embed g6 (List.range 2) [3, 2] = g6 := embed_full g6 [3, 2] (by decide) (by decide)
+/-- `embed_full` needs rows in range (the row is reduced modulo the dimension) and the right length -/
+example : embed [(5, 0), (0, 0)] (List.range 1) [2] ≠ [(5, 0), (0, 0)] := by decide
+example : embed [(0, 0)] (List.range 1) [2] ≠ [(0, 0)] := by decide
+example : embed (mul g6 g6) [2, 0] [2, 2, 3] = mul (embed g6 [2, 0] [2, 2, 3]) (embed g6 [2, 0] [2, 2, 3]) :=
+  embed_mul g6 g6 [2, 0] [2, 2, 3] (by decide) (by decide) (by decide) (by decide)
+/-- `embed_mul` needs a duplicate-free location, rows of `b` in range, and `b` of the right length -/
+example : embed (mul [(1, 0), (0, 0), (0, 0), (0, 0)] [(2, 0), (0, 0), (0, 0), (0, 0)]) [0, 0] [2, 2] ≠
+    mul (embed [(1, 0), (0, 0), (0, 0), (0, 0)] [0, 0] [2, 2])
+      (embed [(2, 0), (0, 0), (0, 0), (0, 0)] [0, 0] [2, 2]) := by decide
+example : embed (mul [(1, 0), (0, 0)] [(2, 0), (0, 0)]) [0] [2, 2] ≠
+    mul (embed [(1, 0), (0, 0)] [0] [2, 2]) (embed [(2, 0), (0, 0)] [0] [2, 2]) := by decide
+example : embed (mul [(1, 0), (0, 0)] [(0, 0)]) [0] [2, 2] ≠
+    mul (embed [(1, 0), (0, 0)] [0] [2, 2]) (embed [(0, 0)] [0] [2, 2]) := by decide
+example : (embed g6 [2, 0] [2, 2, 3]).Unitary :=
+  embed_unitary g6 [2, 0] [2, 2, 3] ((wf_iff_unitary g6).1 (by decide)) (by decide) (by decide) (by decide)
+/-- `embed_unitary` needs a duplicate-free location -/
+example : (embed g4 [0, 0] [2, 2]).wf = false := by decide
+example : embed (dagger g6) [2, 0] [2, 2, 3] = dagger (embed g6 [2, 0] [2, 2, 3]) :=
+  embed_dagger g6 [2, 0] [2, 2, 3] ((wf_iff_unitary g6).1 (by decide)) (by decide) (by decide) (by decide)
+
+-- (3) dagger, powers
+example : dagger g4 = [(0, 0), (1, 3), (3, 1), (2, 2)] := by decide
+example : (dagger g4).at (g4.at 2).1 = (2, (4 - (g4.at 2).2) % 4) :=
+  dagger_at g4 ((wf_iff_unitary g4).1 (by decide)) 2 (by decide)
+/-- `dagger_at` needs distinct rows -/
+example : (dagger [(0, 0), (0, 1)]).at (Mono.at [(0, 0), (0, 1)] 1).1 ≠
+    (1, (4 - (Mono.at [(0, 0), (0, 1)] 1).2) % 4) := by decide
+example : mul (dagger g6) g6 = identity 6 := mul_dagger_left g6 ((wf_iff_unitary g6).1 (by decide))
+example : mul g6 (dagger g6) = identity 6 := mul_dagger_right g6 ((wf_iff_unitary g6).1 (by decide))
+/-- `mul_dagger_left` needs phases `< 4`, `mul_dagger_right` needs a permutation -/
+example : mul (dagger [(0, 5)]) [(0, 5)] ≠ identity 1 := by decide
+example : mul [(0, 0), (0, 0)] (dagger [(0, 0), (0, 0)]) ≠ identity 2 := by decide
+example : mul (mul g4 (dagger g4)) g4 = mul g4 (mul (dagger g4) g4) :=
+  mul_assoc g4 (dagger g4) g4 (by decide)
+/-- `mul_assoc` needs the rows of `c` to be columns of `b` -/
+example : mul (mul [(1, 0), (0, 0)] [(0, 0)]) [(1, 0)] ≠ mul [(1, 0), (0, 0)] (mul [(0, 0)] [(1, 0)]) := by
+  decide
+example : mul (identity 4) g4 = g4 := mul_identity_left g4 4 (by decide)
+example : mul g4 (identity 4) = g4 := mul_identity_right g4 (by decide)
+/-- the identity laws need phases `< 4` (and rows in range on the left) -/
+example : mul (identity 1) [(0, 5)] ≠ [(0, 5)] := by decide
+example : mul [(0, 5)] (identity 1) ≠ [(0, 5)] := by decide
+example : mul (identity 1) [(3, 0)] ≠ [(3, 0)] := by decide
+example : npow g4 (2 + 3) = mul (npow g4 2) (npow g4 3) :=
+  npow_add g4 ((wf_iff_unitary g4).1 (by decide)) 2 3
+/-- `npow_add` needs rows in range -/
+example : npow [(1, 0), (0, 0), (5, 0)] (1 + 1) ≠
+    mul (npow [(1, 0), (0, 0), (5, 0)] 1) (npow [(1, 0), (0, 0), (5, 0)] 1) := by decide
+example : ipower g4 (-(3 : Nat)) = npow (dagger g4) 3 := ipower_neg g4 3 (by decide)
+example : ipower g4 (2 + -5) = mul (ipower g4 2) (ipower g4 (-5)) :=
+  ipower_add g4 ((wf_iff_unitary g4).1 (by decide)) 2 (-5)
+example : mul (ipower g6 (-3)) (ipower g6 3) = identity 6 :=
+  ipower_neg_inverse g6 ((wf_iff_unitary g6).1 (by decide)) 3
+/-- the tables printed by the Python code (`UnitaryMatrix.ipower`, `UnitaryBuilder.apply_right`) -/
+example : ipower g6 3 = [(1, 1), (0, 2), (3, 3), (2, 0), (5, 1), (4, 2)] := by decide
+example : ipower g6 (-3) = [(1, 2), (0, 3), (3, 0), (2, 1), (5, 2), (4, 3)] := by decide
+example : dagger g6 = [(1, 3), (0, 0), (3, 1), (2, 2), (5, 3), (4, 0)] := by decide
+example : embed (dagger g6) [2, 0] [2, 2, 3] =
+    [(6, 3), (7, 1), (8, 3), (9, 3), (10, 1), (11, 3), (0, 0), (1, 2), (2, 0), (3, 0), (4, 2), (5, 0)] := by
+  decide
+/-- the group law needs a unitary -/
+example : ipower [(0, 0), (0, 0)] (1 + -1) ≠ mul (ipower [(0, 0), (0, 0)] 1) (ipower [(0, 0), (0, 0)] (-1)) := by
+  decide
+end Examples
 
 end BqVerif.Kron
